@@ -6,6 +6,7 @@ import (
 	"io"
 	"net/http"
 	"os"
+	"path/filepath"
 	"strings"
 	"sync"
 	"testing"
@@ -178,6 +179,8 @@ func (C07) Gen(rng *core.Rng, tier string, idx int) *core.Scenario {
 		kind = "race"
 	case r < 3:
 		kind = "realclock"
+	case r < 4:
+		kind = "nested"
 	}
 	w := c07World{Kind: kind, VodRoot: "bundled"}
 	n := rng.Range(8, 24)
@@ -185,6 +188,37 @@ func (C07) Gen(rng *core.Rng, tier string, idx int) *core.Scenario {
 		n = rng.Range(20, 60)
 	}
 	switch kind {
+	case "nested":
+		// a VoD root in which one asset directory lies inside another (nest = testpic_2s, nest/inner = testpic_8s):
+		// which asset answers must not depend on anything but the URL
+		w.VodRoot = "nested"
+		sc := core.NewScenario("C07", "tlsim", 0, tier, w)
+		now := int64(1_600_000_000_000) + rng.Int63n(300_000_000_000)
+		for i := 0; i < 6; i++ {
+			as, segS := "nest", int64(2)
+			if rng.Chance(0.7) {
+				as, segS = "nest/inner", 8
+			}
+			mt := core.Pick(rng, []string{"", "segtimeline_1/", "segtimelinenr_1/"})
+			path := "/livesim2/" + mt + as + "/Manifest.mpd"
+			cl := "mpd"
+			if rng.Bool() {
+				nr := now/1000/segS - int64(rng.Range(2, 5))
+				rep := core.Pick(rng, []string{"V300", "A48"})
+				cl = "media"
+				if mt == "segtimeline_1/" {
+					if rep == "V300" {
+						path = fmt.Sprintf("/livesim2/%s%s/V300/%d.m4s", mt, as, nr*segS*90000)
+					} else {
+						path, cl = "/livesim2/"+mt+as+"/A48/init.mp4", "init"
+					}
+				} else {
+					path = fmt.Sprintf("/livesim2/%s%s/%s/%d.m4s", mt, as, rep, nr)
+				}
+			}
+			sc.AddOp(c07Op{Op: "get", Path: path, NowMS: now, Class: "nested-" + cl})
+		}
+		return sc
 	case "history":
 		sc := core.NewScenario("C07", "tlsim", 0, tier, w)
 		var gets []c07Op
@@ -347,6 +381,8 @@ func (p C07) Run(t *testing.T, sc *core.Scenario, res *core.Result) {
 		c07RealClock(t, res, ops)
 	case "race":
 		c07Race(res, w, ops)
+	case "nested":
+		c07Nested(res, ops)
 	default:
 		panic("harness: unknown kind " + w.Kind)
 	}
@@ -650,4 +686,81 @@ func c07RaceInApp(text string) bool {
 		}
 	}
 	return n >= 2 && ok == n
+}
+
+// ---- nested assets -----------------------------------------------------------------------
+
+var (
+	c07NestedOnce sync.Once
+	c07NestedDir  string
+)
+
+// c07NestedRoot builds (once per worker process) a scratch VoD root with the bundled testpic_2s as "nest" and the
+// bundled testpic_8s inside it as "nest/inner".
+func c07NestedRoot() string {
+	c07NestedOnce.Do(func() {
+		dir := hx.TempDir("c07nested")
+		cp := func(src, dst string) {
+			err := filepath.Walk(src, func(p string, info os.FileInfo, err error) error {
+				if err != nil {
+					return err
+				}
+				rel, _ := filepath.Rel(src, p)
+				to := filepath.Join(dst, rel)
+				if info.IsDir() {
+					return os.MkdirAll(to, 0o755)
+				}
+				b, err := os.ReadFile(p)
+				if err != nil {
+					return err
+				}
+				return os.WriteFile(to, b, 0o644)
+			})
+			if err != nil {
+				panic("harness: C07 nested root: " + err.Error())
+			}
+		}
+		cp(filepath.Join(hx.BundledAssets, "testpic_2s"), filepath.Join(dir, "nest"))
+		cp(filepath.Join(hx.BundledAssets, "testpic_8s"), filepath.Join(dir, "nest", "inner"))
+		c07NestedDir = dir
+	})
+	return c07NestedDir
+}
+
+// c07Nested: every request is answered several times by a long-running instance and by fresh instances; all answers
+// must be identical, and a request below nest/inner must never be answered as a request to nest.
+func c07Nested(res *core.Result, ops []c07Op) {
+	root := c07NestedRoot()
+	long := sharedSrv(root)
+	fresh, err := hx.NewSrv(hx.SrvOpts{VodRoot: root})
+	if err != nil {
+		panic("harness: nested instance: " + err.Error())
+	}
+	for _, op := range ops {
+		if op.Op != "get" {
+			continue
+		}
+		tgt := c07Target(op)
+		first := long.Get(tgt)
+		res.Count("op.get")
+		res.Event("nested get %s -> %d %s", trunc(tgt, 140), first.Status, hx.ShortHash(first.Body))
+		sig := core.Sig("class", op.Class)
+		if first.Panic != "" {
+			res.Violate("C07.no-panic", merge(sig, core.Sig("kind", "panic", "frame", first.PanicFrame)), "%s: panic %s", tgt, first.Panic)
+			continue
+		}
+		for k := 0; k < 10; k++ {
+			s := long
+			if k%2 == 1 {
+				s = fresh
+			}
+			r := s.Get(tgt)
+			if msg := c07Same(first, r); msg != "" {
+				res.Violate("C07.same-instance-same-answer", merge(sig, core.Sig("kind", "repeat-differs")), "%s (asset directory inside another asset directory) answered differently on repeat %d: %s", tgt, k, msg)
+				break
+			}
+		}
+		res.Count("probe.nested-compared")
+	}
+	res.Nontrivial = res.Stats["probe.nested-compared"] >= 3
 }
